@@ -28,7 +28,7 @@ EITHER = ['9-lead', '-lead', 'x--double', 'trail-']          # rules I could not
 # names that end in _ref: one underscore, several, a leading custom prefix, 'ref' also inside the name
 REF_NAMES = ['thing_ref', 'x_owner_host_ref', 'dst_host_ref', 'a_b_c_ref', 'ref_ref', 'my_ref_thing_ref', 'x_ref']
 PROPSETS = ['legal', 'legal2', 'legal_ref', 'legal_names', 'bad_digit', 'bad_upper_first', 'bad_hyphen', 'bad_short', 'bad_upper_inside',
-            'bad_space', 'bad_dot', 'bad_long', 'bad_nonascii', 'ref_nonref', 'refs_nonref', 'empty', 'legal_optional_only']
+            'bad_space', 'bad_dot', 'bad_long', 'bad_nonascii', 'ref_nonref', 'refs_nonref', 'empty', 'legal_optional_only', 'legal_own_versioning']
 # rule-breaking 2.1 property names, with prefixes that are themselves legal names (id, type, name, created ...)
 BAD_NAMES = {
     'bad_digit': ['7count', '9id', '0_x'],
@@ -66,7 +66,7 @@ class C19(Profile):
               'custom_roundtrip', 'custom_new_version', 'custom_store_roundtrip', 'custom_marking_used', 'custom_extension_used',
               'either_name', 'extension_name_taken', 'toplevel_extension_used', 'two_toplevel_extensions_on_one_object',
               'registered_toplevel_extension_next_to_unregistered', 'custom_instance_with_supplied_extension',
-              'supplied_extension_next_to_defining_extension', 'custom_marking_with_empty_definition']
+              'supplied_extension_next_to_defining_extension', 'custom_marking_with_empty_definition', 'custom_observable_with_own_versioning_properties']
     rule = ('plans: 20-60 ops: registrations through the four decorators of both spec versions with names from a pool of fresh, already '
             'taken (built-in, earlier in the run, other category) and rule-breaking names and with legal / rule-breaking property lists, the '
             'extension_name form; interleaved with parse (strict/custom mode, version named or not), class_for_type, construction, '
@@ -164,6 +164,14 @@ class C19(Profile):
         ps = op['props']
         if kind == 'marking' or kind == 'extension':
             base = [('name', StringProperty(required=True))]
+        if ps == 'legal_own_versioning':
+            if kind == 'observable' and ver == '2.1':
+                # an observable type that declares the versioning properties itself, all optional
+                from stix2.properties import BooleanProperty, TimestampProperty
+                return base + [('created', TimestampProperty(precision='millisecond', precision_constraint='min')),
+                               ('modified', TimestampProperty(precision='millisecond', precision_constraint='min')),
+                               ('revoked', BooleanProperty())], 'legal'
+            return base + [('note', StringProperty())], 'legal'
         if ps == 'legal_optional_only':
             if kind == 'marking':
                 return [('note', StringProperty()), ('level', IntegerProperty())], 'legal'      # nothing required: {} is a valid definition
@@ -530,6 +538,26 @@ class C19(Profile):
                 raise Violation('custom-instances', 'C19.use/roundtrip/%s' % cat,
                                 dict(name=name, ver=ver, exc=repr(back.exc)[:200] if not back.ok else None, text=text[:300]))
             world.probe('custom_roundtrip')
+            if info['props'] == 'legal_own_versioning' and cat == 'observables' and ver == '2.1':
+                # instances of such a type are versionable like any other object: with `revoked` left unset, under a clock that
+                # stands still / steps back / moves by less than a millisecond
+                T = 1700000000123456 + n
+                stamp = tsparse.fmt(T, digits=6)
+                ov = call(lambda: cls(**dict(d, created=stamp, modified=stamp)))
+                if not ov.ok:
+                    raise Violation('custom-instances', 'C19.use/construct-refused/%s' % type(ov.exc).__name__, dict(name=name, own_versioning=True, exc=repr(ov.exc)[:300]))
+                head = ov.value
+                for delta in ([0, -300, 1][op['a'] % 3], 0):
+                    world.clock.set(T + delta)
+                    nv = call(s.versioning.new_version, head, name='renamed')
+                    if not nv.ok:
+                        raise Violation('custom-instances', 'C19.use/new_version-refused/%s' % type(nv.exc).__name__, dict(name=name, ver=ver, own_versioning=True))
+                    old_us = tsparse.us_of(json.loads(head.serialize())['modified'])
+                    new_us = tsparse.us_of(json.loads(nv.value.serialize())['modified'])
+                    if not new_us > old_us or nv.value['id'] != head['id']:
+                        raise Violation('custom-instances', 'C19.use/new_version-wrong', dict(own_versioning=True, old=old_us, new=new_us, clock=T + delta))
+                    head = nv.value
+                world.probe('custom_observable_with_own_versioning_properties')
             if ver == '2.1' and op['a'] % 4 == 1:
                 # an instance that carries an extension of its own (an unregistered property extension, kept as given): a custom
                 # type keeps it like a built-in type does - also when the type adds its defining extension (extension_name=)
